@@ -438,6 +438,9 @@ impl GraphEngine {
             let mut pager = self.pager.write().unwrap();
             let encoded_stats = stats.encode();
             stats_root = crate::blob_store::BlobStore::write(&mut pager, &encoded_stats)?;
+            // Property-tree and statistics pages were written after the segment sync above;
+            // they must be durable before the checkpoint lets recovery skip the WAL.
+            pager.sync()?;
         }
 
         let pointers: Vec<SegmentPointer> = new_segments
